@@ -82,13 +82,15 @@ def histories(rng, tier):
         out.append(h)
     # high orders (uniq values beyond 2^32: order >= 15): a few single pixels and one whole cell of a coarser
     # order, in base pixels on both sides of 8; blocks are 4^8 cells, so only a handful of coverage pixels
-    for _ in range(3 if tier == 'quick' else 12):
-        spord = rng.choice([15, 15, 16])
+    # (orders 13-16: the UNIQ values cross 2^30, 2^31 and 2^32 — every place where a column width or an integer
+    #  type could be chosen from the ORDER alone: seeded change C17f wrote order-14 codes >= 2^31 into 32 bits)
+    for spord in ([14, 13, 15, 16] if tier == 'quick' else [14, 13, 15, 16] * 3 + [14, 15]):
         covord = spord - 8
         c = gen.MapCfg('m', 'plain', covord, spord, dtype='b1')
         h = [c.line()]
         base = 4 ** spord
-        cells = rng.sample(range(12), 2)
+        cells = [rng.randrange(4, 12), rng.randrange(12)]         # at least one base pixel beyond the first four
+        rng.shuffle(cells)
         pix = []
         for b in cells:
             k0 = b * base + rng.randrange(base)
